@@ -4,17 +4,18 @@ package main
 // real application, and printer of both the history and the observations as Coq terms.
 
 import (
-	"os"
 	"crypto/sha256"
 	"encoding/hex"
 	"encoding/json"
 	"fmt"
+	stakingkeeper "github.com/cosmos/cosmos-sdk/x/staking/keeper"
 	"math/big"
+	"os"
 	"sort"
 	"strings"
 
-	"github.com/cosmos/cosmos-sdk/types/query"
 	sdk "github.com/cosmos/cosmos-sdk/types"
+	"github.com/cosmos/cosmos-sdk/types/query"
 	authtypes "github.com/cosmos/cosmos-sdk/x/auth/types"
 	distrtypes "github.com/cosmos/cosmos-sdk/x/distribution/types"
 	stakingtypes "github.com/cosmos/cosmos-sdk/x/staking/types"
@@ -23,9 +24,9 @@ import (
 	tmproto "github.com/cometbft/cometbft/proto/tendermint/types"
 	ctypes "github.com/settlus/chain/types"
 	"github.com/settlus/chain/x/oracle"
-	"github.com/settlus/chain/x/settlement"
 	oraclekeeper "github.com/settlus/chain/x/oracle/keeper"
 	oracletypes "github.com/settlus/chain/x/oracle/types"
+	"github.com/settlus/chain/x/settlement"
 	settlementkeeper "github.com/settlus/chain/x/settlement/keeper"
 	settlementtypes "github.com/settlus/chain/x/settlement/types"
 )
@@ -39,37 +40,37 @@ type VD struct {
 }
 
 type Msg struct {
-	Kind     string `json:"kind"` // create_tenant create_tenant_mc add_admin remove_admin update_period deposit record cancel prevote vote consent
-	Sender   int    `json:"sender,omitempty"`
-	Tid      uint64 `json:"tid,omitempty"`
-	Admin    int    `json:"admin,omitempty"`
-	Denom    string `json:"denom,omitempty"`
-	Amount   string `json:"amount,omitempty"`
-	Period   uint64 `json:"period,omitempty"`
-	Req      string `json:"req,omitempty"` // raw bytes as latin-1 string (hex in JSON below)
-	ReqHex   string `json:"req_hex,omitempty"`
-	Chain    string `json:"chain,omitempty"`
-	Contract string `json:"contract,omitempty"`
-	Tok      string `json:"tok,omitempty"`
-	Feeder   int    `json:"feeder,omitempty"`
-	Val      int    `json:"val,omitempty"`
-	Commit   string `json:"commit,omitempty"` // the byte string that is hashed into the prevote
-	VD       []VD   `json:"vd,omitempty"`
-	Salt     string `json:"salt,omitempty"`
-	Round    uint64 `json:"round,omitempty"`
-	AdminUpper  bool `json:"admin_upper,omitempty"`  // the admin to add / remove is spelled in upper-case bech32
-	SenderUpper bool `json:"sender_upper,omitempty"`
-	ValUpper    bool `json:"val_upper,omitempty"`    // the validator of an oracle message is spelled in upper-case bech32 // the sender is spelled in upper-case bech32 (same account, same signature)
+	Kind        string `json:"kind"` // create_tenant create_tenant_mc add_admin remove_admin update_period deposit record cancel prevote vote consent
+	Sender      int    `json:"sender,omitempty"`
+	Tid         uint64 `json:"tid,omitempty"`
+	Admin       int    `json:"admin,omitempty"`
+	Denom       string `json:"denom,omitempty"`
+	Amount      string `json:"amount,omitempty"`
+	Period      uint64 `json:"period,omitempty"`
+	Req         string `json:"req,omitempty"` // raw bytes as latin-1 string (hex in JSON below)
+	ReqHex      string `json:"req_hex,omitempty"`
+	Chain       string `json:"chain,omitempty"`
+	Contract    string `json:"contract,omitempty"`
+	Tok         string `json:"tok,omitempty"`
+	Feeder      int    `json:"feeder,omitempty"`
+	Val         int    `json:"val,omitempty"`
+	Commit      string `json:"commit,omitempty"` // the byte string that is hashed into the prevote
+	VD          []VD   `json:"vd,omitempty"`
+	Salt        string `json:"salt,omitempty"`
+	Round       uint64 `json:"round,omitempty"`
+	AdminUpper  bool   `json:"admin_upper,omitempty"` // the admin to add / remove is spelled in upper-case bech32
+	SenderUpper bool   `json:"sender_upper,omitempty"`
+	ValUpper    bool   `json:"val_upper,omitempty"` // the validator of an oracle message is spelled in upper-case bech32 // the sender is spelled in upper-case bech32 (same account, same signature)
 }
 
 type Env struct {
-	Kind     string `json:"kind"` // bank_send nft_mint nft_transfer jail unjail
-	From     int    `json:"from,omitempty"`
-	To       int    `json:"to,omitempty"`       // account index, or -1-tid for a treasury
-	Denom    string `json:"denom,omitempty"`
-	Amount   string `json:"amount,omitempty"`
-	Token    uint64 `json:"token,omitempty"`
-	Val      int    `json:"val,omitempty"`
+	Kind   string `json:"kind"` // bank_send nft_mint nft_transfer jail unjail
+	From   int    `json:"from,omitempty"`
+	To     int    `json:"to,omitempty"` // account index, or -1-tid for a treasury
+	Denom  string `json:"denom,omitempty"`
+	Amount string `json:"amount,omitempty"`
+	Token  uint64 `json:"token,omitempty"`
+	Val    int    `json:"val,omitempty"`
 }
 
 type Event struct {
@@ -113,22 +114,23 @@ type GenUtxr struct {
 }
 
 type HGenesis struct {
-	Powers     []int64  `json:"powers"`
-	Probono    []string `json:"probono"`
-	NAccts     int      `json:"naccts"`
-	VotePeriod uint64   `json:"vote_period"`
-	Threshold  string   `json:"threshold"`
-	SlashFrac  string   `json:"slash_fraction"`
-	Window     uint64   `json:"window"`
-	MaxMiss    uint64   `json:"max_miss"`
-	Chains     []string `json:"chains"` // supported external chain ids
-	OracleFee  string   `json:"oracle_fee"`
+	Powers     []int64     `json:"powers"`
+	Probono    []string    `json:"probono"`
+	NAccts     int         `json:"naccts"`
+	VotePeriod uint64      `json:"vote_period"`
+	Threshold  string      `json:"threshold"`
+	SlashFrac  string      `json:"slash_fraction"`
+	Window     uint64      `json:"window"`
+	MaxMiss    uint64      `json:"max_miss"`
+	Chains     []string    `json:"chains"` // supported external chain ids
+	OracleFee  string      `json:"oracle_fee"`
 	Tenants    []GenTenant `json:"tenants,omitempty"`
 	Utxrs      []GenUtxr   `json:"utxrs,omitempty"`
-	Funds      int64    `json:"funds"`    // per account, of each tenant denom
-	BigFunds   bool     `json:"big_funds,omitempty"` // 10^30 of each tenant denom instead (deposits above 2^63)
-	Nft        bool     `json:"nft"`      // deploy the ERC-721 contract in block 1 (from account NAccts-1)
-	Erc20      bool     `json:"erc20,omitempty"` // deploy an ERC-20 contract in block 1 and register it as a token pair: denomination pairDenom
+	Funds      int64       `json:"funds"`                 // per account, of each tenant denom
+	BigFunds   bool        `json:"big_funds,omitempty"`   // 10^30 of each tenant denom instead (deposits above 2^63)
+	FastUnbond bool        `json:"fast_unbond,omitempty"` // staking unbonding time of one nanosecond: an emptied validator is removed at the next end-block
+	Nft        bool        `json:"nft"`                   // deploy the ERC-721 contract in block 1 (from account NAccts-1)
+	Erc20      bool        `json:"erc20,omitempty"`       // deploy an ERC-20 contract in block 1 and register it as a token pair: denomination pairDenom
 }
 
 type History struct {
@@ -211,24 +213,24 @@ type RoundSnap struct {
 	Sources    []string
 }
 type Snapshot struct {
-	Height   int64
-	Tenants  []TenantSnap
-	Utxrs    []UtxrSnap
-	Idx      [][3]string // (tid, reqhex, uid or "none") for every request id ever used: raw index presence
-	Lookup   [][3]string // (tid, reqhex, uid or "none") through GetUTXRByRequestId
-	Bals     [][3]string // (addr dec, asset, amount)
-	Round    RoundSnap
-	Prevotes [][2]string // (val addr dec, hash)
-	Votes    []VoteSnap
-	Deleg    [][2]string
-	Miss     [][2]string
-	Vals     []ValSnap
-	Pool     [][2]string // denom, amount
+	Height    int64
+	Tenants   []TenantSnap
+	Utxrs     []UtxrSnap
+	Idx       [][3]string // (tid, reqhex, uid or "none") for every request id ever used: raw index presence
+	Lookup    [][3]string // (tid, reqhex, uid or "none") through GetUTXRByRequestId
+	Bals      [][3]string // (addr dec, asset, amount)
+	Round     RoundSnap
+	Prevotes  [][2]string // (val addr dec, hash)
+	Votes     []VoteSnap
+	Deleg     [][2]string
+	Miss      [][2]string
+	Vals      []ValSnap
+	Pool      [][2]string // denom, amount
 	OwedDelta [][2]string // denom, Dec raw delta of (outstanding + community pool) over this end-block
 	OwedVal   [][3]string // validator, denom, Dec raw delta of its outstanding rewards over this end-block
 	OwedComm  [][2]string // denom, Dec raw delta of the community pool over this end-block
-	Invariant string     // first broken crisis invariant, "" if all hold
-	AppHash  string
+	Invariant string      // first broken crisis invariant, "" if all hold
+	AppHash   string
 }
 type VoteSnap struct {
 	Val *big.Int
@@ -246,24 +248,24 @@ type Obs struct {
 }
 
 type Exec struct {
-	C        *Chain
-	H        History
-	reqs     map[string]bool // "tid|reqhex"
-	reqList  [][2]string
-	tracked  map[string]bool
-	trackLst [][2]string // addr dec, asset
-	sbt      map[uint64]common.Address
-	commits  map[string]string // hash -> commit (hex)
-	faulty   *FaultPlan
-	nftOwner Acct
+	C          *Chain
+	H          History
+	reqs       map[string]bool // "tid|reqhex"
+	reqList    [][2]string
+	tracked    map[string]bool
+	trackLst   [][2]string // addr dec, asset
+	sbt        map[uint64]common.Address
+	commits    map[string]string // hash -> commit (hex)
+	faulty     *FaultPlan
+	nftOwner   Acct
 	erc20Addr  common.Address
 	erc20Denom string
-	nextTok  uint64
-	gasPrices []sdk.DecCoin
-	oracleFee sdk.Dec
-	IsoDiff   []int // events of the full history at which tenant 1's view differs from the run without the other tenants
-	RT        *RoundtripObs
-	HashDiff  []int // events after which a second execution of the same history committed another app hash
+	nextTok    uint64
+	gasPrices  []sdk.DecCoin
+	oracleFee  sdk.Dec
+	IsoDiff    []int // events of the full history at which tenant 1's view differs from the run without the other tenants
+	RT         *RoundtripObs
+	HashDiff   []int // events after which a second execution of the same history committed another app hash
 }
 
 func addrInt(a []byte) *big.Int { return new(big.Int).SetBytes(a) }
@@ -307,7 +309,7 @@ func (h HGenesis) spec() GenesisSpec {
 			funds = funds.Add(sdk.NewCoin(d, amt))
 		}
 	}
-	g := GenesisSpec{Vals: vals, NAccts: h.NAccts, Oracle: op, Settlement: sp, Funds: funds}
+	g := GenesisSpec{Vals: vals, NAccts: h.NAccts, Oracle: op, Settlement: sp, Funds: funds, FastUnbond: h.FastUnbond}
 	for _, t := range h.Tenants {
 		var admins []string
 		for _, a := range t.Admins {
@@ -541,6 +543,35 @@ func (e *Exec) applyEnv(v Env) (string, error) {
 			return "", err
 		}
 		return fmt.Sprintf("ES (EnvNftSet %s %d %s)", cZ(addrInt(c.NftAddr.Bytes())), v.Token, e.acctZ(v.To)), nil
+	case "undelegate":
+		// the operator takes (part of) its self-delegation back through the staking message server
+		val, ok := c.App.StakingKeeper.GetValidator(c.Ctx(), c.Accts[v.Val].Val())
+		if !ok {
+			return "", fmt.Errorf("no validator")
+		}
+		amt, _ := new(big.Int).SetString(v.Amount, 10)
+		if amt == nil || amt.Sign() <= 0 || amt.Cmp(val.Tokens.BigInt()) > 0 {
+			amt = val.Tokens.BigInt()
+		}
+		wasJailed := val.Jailed
+		cctx, write := c.Ctx().CacheContext()
+		_, err := stakingkeeper.NewMsgServerImpl(c.App.StakingKeeper).Undelegate(cctx, &stakingtypes.MsgUndelegate{
+			DelegatorAddress: sdk.AccAddress(c.Accts[v.Val].Addr).String(), ValidatorAddress: c.Accts[v.Val].Val().String(),
+			Amount: sdk.NewCoin(c.App.StakingKeeper.BondDenom(c.Ctx()), sdk.NewIntFromBigInt(amt))})
+		if err != nil {
+			return "", err
+		}
+		write()
+		out := ""
+		if after, ok := c.App.StakingKeeper.GetValidator(c.Ctx(), c.Accts[v.Val].Val()); ok {
+			out = fmt.Sprintf("EO (EnvSetTokens %s %s)", e.acctZ(v.Val), cZ(after.Tokens.BigInt()))
+			if after.Jailed && !wasJailed {
+				out += "; " + fmt.Sprintf("EO (EnvJail %s)", e.acctZ(v.Val))
+			}
+		} else {
+			out = fmt.Sprintf("EO (EnvSetTokens %s 0); EO (EnvJail %s)", e.acctZ(v.Val), e.acctZ(v.Val))
+		}
+		return out, nil
 	case "jail", "unjail":
 		val, ok := c.App.StakingKeeper.GetValidator(c.Ctx(), c.Accts[v.Val].Val())
 		if !ok {
@@ -741,7 +772,7 @@ func (e *Exec) Run() []Obs {
 
 // RoundtripObs is what the genesis export / import round trip observed (C17).
 type RoundtripObs struct {
-	Class      string    // ok | panic (InitChain of the fresh application panicked) | rejected (export failed)
+	Class      string // ok | panic (InitChain of the fresh application panicked) | rejected (export failed)
 	Log        string
 	Snap       *Snapshot // module state of the fresh application right after InitChain
 	SameExport bool      // both modules' ExportGenesis JSON identical before and after
